@@ -203,3 +203,204 @@ PROPS["C18"] = {
     "assumptions": ["a stack overflow / abort of the monitor process while sorting is a violation (the crumb file names the case)",
                     "Miri runs call the sort on the current thread with slices <= 2000 elements, which never reach rayon::join"],
 }
+
+
+TSAN_ENV = {"TSAN_OPTIONS": "halt_on_error=0 exitcode=66 second_deadlock_stack=1"}
+
+
+def bx(name, mode, variant, shards, cases, tl, extra=(), timeout=None, **kw):
+    j = {
+        "name": name, "bin": "boxcar_mon", "variant": variant, "shards": shards,
+        "args": ["--mode", mode, "--seed", "{seed}", "--shard", "{shard}", "--cases", str(cases), "--time-limit", str(tl), "--out", "{out}"] + list(extra),
+        "timeout": timeout or (tl * 3 + 120),
+    }
+    j.update(kw)
+    return j
+
+
+def wk(name, mode, variant, shards, cases, tl, props=None, extra=(), timeout=None, **kw):
+    j = {
+        "name": name, "bin": "worker_mon", "variant": variant, "shards": shards,
+        "args": ["--mode", mode, "--seed", "{seed}", "--shard", "{shard}", "--cases", str(cases), "--time-limit", str(tl), "--out", "{out}"]
+                + (["--props", props] if props else []) + list(extra),
+        "timeout": timeout or (tl * 3 + 120),
+        "crash_is_violation": True,
+    }
+    j.update(kw)
+    return j
+
+
+def replay_generic(binary, mode, props=None):
+    def f(rj):
+        cid = rj.get("detail", {}).get("case_id", "")
+        parts = cid.split(":")
+        if len(parts) != 3:
+            return []
+        mk = bx if binary == "boxcar_mon" else wk
+        j = mk("replay", mode, "chk", 1, 1, 600) if binary == "boxcar_mon" else wk("replay", mode, "chk", 1, 1, 600, props=props)
+        j["args"] = [a.replace("{seed}", parts[0]).replace("{shard}", parts[1]) for a in j["args"]] + ["--replay-case", parts[2]]
+        return [j]
+    return f
+
+
+def c08_jobs(tier):
+    q = tier != "thorough"
+    return [
+        bx("lin-chk", "lin", "chk", 12, 1000000, 25 if q else 900),
+        bx("stress-chk", "stress", "chk", 4, 1000000, 20 if q else 600),
+        bx("stress-asan", "stress", "asan", 2, 1000000, 15 if q else 300, sanitizer=True, env=ASAN_ENV, crash_is_violation=True),
+        bx("stress-miri", "stress", "miri", 6 if q else 16, 2 if q else 30, 120 if q else 3000, extra=["--small", "1"], sanitizer=True,
+           miriflags=MIRI_SB + " -Zmiri-preemption-rate=0.05", timeout=500 if q else 4000),
+    ]
+
+
+PROPS["C08"] = {
+    "jobs": c08_jobs,
+    "replay": replay_generic("boxcar_mon", "lin"),
+    "evaluations": ["schedules", "histories"],
+    "rule": ("history + sequential model with unique ids: (1) controlled schedules - 2-5 real threads block at every vector yield point (verif hooks) and a seeded scheduler "
+             "(uniform / sticky / PCT) releases exactly one at a time, so each run is one interleaving at the granularity of the vector's atomic operations; capacities 0/1/32/33/1024, "
+             "1-3 columns, prefill next to bucket boundaries, lying ExactSizeIterators, panicking and re-entrant callbacks; (2) free running 2-16 thread stress with seeded delays at the "
+             "same points, checked with interval rules; (3) ASan and Miri (Stacked Borrows, leak check) on the same shapes. distinct_nontrivial = distinct (thread, yield point) trace "
+             "hashes of controlled schedules plus distinct stress histories"),
+    "require": {"any": {"schedules": 2000, "schedules-with-competing-bucket-allocation": 20, "gets-that-met-an-unpublished-or-reserved-slot": 100,
+                         "snapshots-that-met-unpublished-slots": 100, "lying-iterators": 100, "histories": 50, "ops-overlapping-another-thread": 1000}},
+    "assumptions": ["yield points are placed before every atomic operation of the vector (MANIFEST.hooks); interleavings inside a fill callback are not split further",
+                    "batch contiguity is recorded, not judged"],
+}
+
+
+def c09_jobs(tier):
+    q = tier != "thorough"
+    return [
+        bx("race-miri", "race", "miri", 12 if q else 16, 1 if q else 16, 200 if q else 3000, extra=["--items", "34", "--writers", "2", "--readers", "3"], sanitizer=True,
+           miriflags=MIRI_SB + " -Zmiri-preemption-rate=0.05", timeout=600 if q else 4000),
+        bx("race-tsan", "race", "tsan", 5, 60 if q else 1500, 40 if q else 900, extra=["--items", "200", "--writers", "4", "--readers", "8"], sanitizer=True, env=TSAN_ENV),
+        wk("nucleo-race-miri", "race", "miri", 4 if q else 16, 1 if q else 8, 300 if q else 3000, extra=["--items", "40", "--injectors", "2", "--pool", "2"], sanitizer=True,
+           miriflags=MIRI_TB + " -Zmiri-preemption-rate=0.03", timeout=900 if q else 5000),
+        wk("nucleo-race-tsan", "race", "tsan", 5, 8 if q else 200, 40 if q else 900, extra=["--items", "3000", "--injectors", "4", "--pool", "8"], sanitizer=True, env=TSAN_ENV),
+    ]
+
+
+PROPS["C09"] = {
+    "jobs": c09_jobs,
+    "replay": lambda rj: [],
+    "evaluations": ["race-histories"],
+    "rule": ("race detectors judge the orderings declared in the source: workloads install no hook and share no log/counter; start barriers spin on Relaxed flags. Vector level: writers that "
+             "allocate new buckets (capacity 1) while readers get() indices in those buckets without ever touching the counter, get_unchecked after an observed Some, snapshot iteration during "
+             "pushes - under Miri (many seeds, raised preemption rate, weak memory emulation) and ThreadSanitizer (16 threads, repeated 5x). Nucleo level: injector threads + ticking thread + "
+             "pool threads with pattern edits (rescoring, tie-breaking comparator), update_config, restart and drop - Miri (tree borrows flags, see DESIGN) and ThreadSanitizer. "
+             "distinct_nontrivial = executions (seed x shard x history); every Miri process uses its own scheduler seed"),
+    "require": {"any": {"race-histories": 10, "race.reads-some": 1000, "race.reads-none": 100}},
+    "assumptions": ["reorderings neither tool produced are not covered", "third-party-only sanitizer stacks are listed, not judged"],
+}
+
+
+def c11_jobs(tier):
+    q = tier != "thorough"
+    return [
+        bx("drop-chk", "drop", "chk", 8, 1000000, 15 if q else 600),
+        bx("drop-asan", "drop", "asan", 4, 1000000, 15 if q else 300, sanitizer=True, env=ASAN_ENV, crash_is_violation=True),
+        bx("drop-miri", "drop", "miri", 6 if q else 16, 3 if q else 60, 150 if q else 3000, extra=["--small", "1"], sanitizer=True, miriflags=MIRI_SB, timeout=500 if q else 4000),
+        wk("nucleo-chk", "random", "chk", 8, 1000000, 25 if q else 900, props="C11"),
+        wk("nucleo-directed", "directed", "chk", 4, 1000000, 25 if q else 600, props="C11"),
+        wk("nucleo-asan", "random", "asan", 4, 1000000, 20 if q else 600, props="C11", sanitizer=True, env=ASAN_ENV),
+    ]
+
+
+PROPS["C11"] = {
+    "jobs": c11_jobs,
+    "replay": replay_generic("boxcar_mon", "drop"),
+    "evaluations": ["histories"],
+    "rule": ("tracked payloads (unique id, canary poisoned on drop, per-id drop counters, per-stream live-handle counters decremented before the real handle is dropped): vector level "
+             "histories of push/extend with honest, over- and under-reporting iterators (over-reporting across several buckets followed by pushes that land behind the gap), callbacks that "
+             "panic at position k, capacities where bucket b+1 is allocated while bucket b never is - natively, under ASan+LSan and under Miri with the leak checker; Nucleo level random and "
+             "directed histories (restart, clones, injectors dropped in any order, held writers, background bursts) natively and under ASan+LSan. distinct_nontrivial = distinct history shapes"),
+    "require": {"any": {"c11.gap-shapes": 50, "c11.payloads-created": 10000, "histories": 500, "restarts.clear": 10, "restarts.keep": 10}},
+    "assumptions": ["column allocations of a panicking callback are not judged (the property does not promise them)",
+                    "after restart the matcher may let go of the old stream at any time; only injector handles count as 'can reach' for the early-drop rule of old streams",
+                    "the pool thread that ran the last run releases its worker reference asynchronously: drop counts get 1.5 s to settle (a leak never settles)"],
+}
+
+
+def worker_jobs(prop, with_asan=False):
+    def jobs(tier):
+        q = tier != "thorough"
+        out = [
+            wk("random-chk", "random", "chk", 10, 1000000, 25 if q else 900, props=prop),
+            wk("directed-chk", "directed", "chk", 6, 1000000, 25 if q else 900, props=prop),
+        ]
+        if with_asan:
+            out.append(wk("random-asan", "random", "asan", 2, 1000000, 20 if q else 600, props=prop, sanitizer=True, env=ASAN_ENV))
+            out.append(wk("random-miri", "random", "miri", 4 if q else 16, 1 if q else 10, 300 if q else 3000, props=prop, extra=["--small", "1", "--delays", "0"],
+                          sanitizer=True, miriflags=MIRI_TB, timeout=900 if q else 5000))
+        return out
+    return jobs
+
+
+RULE_WORKER = ("scripted histories against a real Nucleo (threads 1/2/3/4/8/16, 1-3 columns): pushes/extends from the control thread and background burst threads, writers parked inside "
+               "fill_columns (index reserved, not published), pattern edits typed character by character with truthful append flags (markers and escapes in last position), deletions, "
+               "replacements, ticks with timeouts 0..50 ms, restart(true|false), injector create/clone/drop; random driver with seeded delays at the verif points plus directed driver that "
+               "pauses the worker at named phases (two writers in flight across a parallel scan, cancellation mid run, restart while paused / after an unobserved run / twice). "
+               "Every snapshot after every tick is checked. distinct_nontrivial = distinct histories")
+
+PROPS["C06"] = {
+    "jobs": worker_jobs("C06", with_asan=True),
+    "replay": replay_generic("worker_mon", "random", "C06"),
+    "evaluations": ["histories"],
+    "rule": RULE_WORKER,
+    "require": {"any": {"ticks": 2000, "snapshots-with-writer-in-flight": 200, "snapshots-with-2+-writers-in-flight": 100, "directed.two-in-flight": 20,
+                         "directed.tick-over-paused-run": 5, "tick.changed=true.running=true": 50}},
+    "assumptions": ["matcher configuration fixed per history", "scores are recomputed with snapshot.pattern() on the monitor's own Matcher"],
+}
+PROPS["C07"] = {
+    "jobs": worker_jobs("C07"),
+    "replay": replay_generic("worker_mon", "random", "C07"),
+    "evaluations": ["histories"],
+    "rule": RULE_WORKER + "; at the end every injector is dropped, the matcher is ticked (<= 200 x 50 ms) until running == false and the snapshot is compared with the from-scratch result",
+    "require": {"any": {"c07.quiescent-states-compared": 1000, "directed.typing": 50, "directed.cancel-mid-run": 10}},
+    "assumptions": ["append flag is truthful (previous text is a prefix of the new text)", "update_config is not used"],
+}
+PROPS["C12"] = {
+    "jobs": worker_jobs("C12"),
+    "replay": replay_generic("worker_mon", "directed", "C12"),
+    "evaluations": ["histories"],
+    "rule": RULE_WORKER + "; payloads carry their stream number",
+    "require": {"any": {"restarts.clear": 100, "restarts.keep": 100, "directed.restart.run-paused-before-sort": 3, "directed.restart.run-finished-unobserved": 3,
+                         "directed.restart.twice-without-tick": 3, "directed.restart-with-old-pushers": 5}},
+    "assumptions": ["an empty snapshot (no matches, item_count 0) carries no stream identity"],
+}
+PROPS["C19"] = {
+    "jobs": worker_jobs("C19"),
+    "replay": replay_generic("worker_mon", "random", "C19"),
+    "evaluations": ["histories"],
+    "rule": RULE_WORKER + "; every tick is wrapped: copy of the snapshot before, count of pushes of the current stream completed before",
+    "require": {"any": {"tick.changed=false.running=false": 100, "tick.changed=false.running=true": 100, "tick.changed=true.running=false": 100, "tick.changed=true.running=true": 50,
+                         "directed.tick-over-paused-run": 5}},
+    "assumptions": ["'completed before the call' is counted when push/extend has returned on its thread"],
+}
+PROPS["C20"] = {
+    "jobs": lambda tier: [wk("model-chk", "c20", "chk", 8, 1000000, 15 if tier != "thorough" else 600),
+                          wk("random-chk", "random", "chk", 4, 1000000, 15 if tier != "thorough" else 600, props="C20"),
+                          wk("directed-chk", "directed", "chk", 4, 1000000, 15 if tier != "thorough" else 600, props="C20")],
+    "replay": replay_generic("worker_mon", "c20"),
+    "evaluations": ["histories"],
+    "rule": ("model based: the harness keeps for every live injector handle the stream it was created from; single threaded control; after EVERY step of random histories of injector(), clone, "
+             "drop, restart(true|false), push, tick (completing, or timing out against a worker paused at run entry) active_injectors() is compared exactly; the random/directed worker "
+             "histories add the same comparison with helper threads (interval bound). distinct_nontrivial = distinct histories; model states visited are counted"),
+    "require": {"any": {"c20.steps-compared": 10000, "c20.distinct-model-states": 6, "c20.tick-against-paused-worker.running=true": 10}},
+    "assumptions": ["helper threads' clones are bounded by counters incremented before the clone is made and decremented after it is dropped"],
+}
+PROPS["C13"] = {
+    "jobs": lambda tier: [wk("c13-chk", "c13", "chk", 8, 1000000, 25 if tier != "thorough" else 900),
+                          wk("c13-rel", "c13", "rel", 4, 1000000, 20 if tier != "thorough" else 600)],
+    "replay": replay_generic("worker_mon", "c13"),
+    "evaluations": ["histories"],
+    "rule": ("bounded-progress form: for a tick that returned running == true, once every background run spawned so far has passed its single notification decision point, a notify with a "
+             "stamp later than the tick's begin must exist. Directed: all 9 orderings of {worker: read flag, unlock} against {tick: clear, try-lock, re-arm, return} are forced with pause hooks "
+             "and timeout 0 (empty and non-empty pattern run paths); random: an event loop that ticks only when notified, injector threads, seeded delays, timeouts 0-5 ms; injector clause: "
+             "inside notify on a thread that is inside push/extend the items of that call are visible. distinct_nontrivial = schedules / event loops run"),
+    "require": {"any": {"c13.schedules-judged": 200, "c13.ordering[C R L U A]": 10, "c13.ordering[C L R A U]": 10, "c13.ordering[R C L A U]": 10, "c13.ordering[C L A return R U]": 10,
+                         "c13.event-loops": 20, "c13.injector-notifies-checked": 500}},
+    "assumptions": ["an unbounded 'eventually' is not decidable on a finite run: the verdict is taken when no run is pending any more (final, not a timeout)"],
+}
